@@ -10,6 +10,21 @@ NOTE = ("Trusted: Lean 4.33 kernel; axioms propext / Classical.choice / Quot.sou
         "standards. CPython's re/str/int semantics are modelled, not verified.")
 
 CLAIMS = {
+    "C06": dict(
+        text="Lean 4 theorems for every table / registry / algorithm table: the BBAN-level national check never "
+             "returns False (`returns_true`), national validation can only reject (`monotone`), countries without a "
+             "registered algorithm are accepted (`no_algorithm_accepts`), and the dispatch theorem (the registered "
+             "algorithm judges exactly the declared fields cut at the published positions). Published-rule "
+             "equivalence is PROVED for the ISO 7064 families (BA, ME, MK, PT, RS, SI, TL; MR, TN; BE) against "
+             "SV.Spec.National through kernel-checked instance obligations on the regenerated registration table and "
+             "positions (so BT-vs-BA, a shifted position or a lost country breaks an obligation). PARTIAL: for ES, "
+             "FR, MC, IT, SM, FI, NO, PL, EE, CZ, SK, IS the published rule is an independent Python reference "
+             "(tools/natref.py) compared with the implementation on reference-computed accept/reject cases - a "
+             "differential check, not a proof; their Lean models are tied to the code by correspondence.",
+        design="7 (C06)",
+        technique="Lean 4 proof (dispatch, field tiling, numerify arithmetic) + decide +kernel instance "
+                  "obligations on regenerated registration/position data + differential check against an "
+                  "independent reference of the published rules"),
     "C02": dict(
         text="Lean 4 theorems for every country of a well-formed table and every BBAN fitting its structure "
              "string (unbounded): from_bban returns country + fmt02(98 - numeric(bban+country)*100 mod 97) + bban "
